@@ -315,6 +315,42 @@ func checkCached(f *rm.Forest, hashes []Hash, proof u.Proof, want map[Hash]bool)
 	return "", ""
 }
 
+// lcReorder re-encodes the client's cached proof through the public GetProofSubset with the
+// wanted targets in a shuffled order (and sometimes one leaf dropped) before the next
+// Update/Undo: a cached proof need not list its targets in ascending order (added after seeded
+// change C08g).  Deterministic in (tag, op index, sub index).
+func lcReorder(c *core.Ctx, tag uint64, oi, sub int, numLeaves uint64, hashes []Hash, proof *u.Proof, want map[Hash]bool, when string) ([]Hash, bool) {
+	if len(hashes) < 2 || (tag+uint64(oi)*5+uint64(sub))%3 != 0 {
+		return hashes, true
+	}
+	rng := rand.New(rand.NewSource(int64(tag*1000003 + uint64(oi)*131 + uint64(sub))))
+	idx := rng.Perm(len(hashes))
+	dropped := -1
+	if len(hashes) >= 3 && rng.Intn(2) == 0 {
+		dropped = idx[len(idx)-1]
+		idx = idx[:len(idx)-1]
+	}
+	wants := make([]uint64, len(idx))
+	for i, j := range idx {
+		wants[i] = proof.Targets[j]
+	}
+	nh, np, err := u.GetProofSubset(cloneProof(*proof), cloneHashes(hashes), cloneU64(wants), numLeaves)
+	if err != nil {
+		c.Violate("GetProofSubset", "error-on-held-targets", "reorder-"+when, fmt.Sprintf("op %d: wants %v of targets %v: %v", oi, wants, proof.Targets, err))
+		return hashes, false
+	}
+	if len(nh) != len(wants) || len(np.Targets) != len(wants) {
+		c.Violate("GetProofSubset", "length-mismatch", "reorder-"+when, fmt.Sprintf("op %d: wants %v: %d hashes, %d targets", oi, wants, len(nh), len(np.Targets)))
+		return hashes, false
+	}
+	if dropped >= 0 {
+		delete(want, hashes[dropped])
+	}
+	*proof = np
+	c.Count("cached_proof_reordered_before_"+when, 1)
+	return nh, true
+}
+
 type lcSnap struct {
 	before *rm.Model
 	rec    *BlockRec
@@ -349,6 +385,10 @@ func lcCheck(c *core.Ctx, s lcScenario, judgeUndo bool) {
 			snaps = append(snaps, snap)
 			t := traits(rec)
 			var err error
+			var okR bool
+			if hashes, okR = lcReorder(c, s.Tag, oi, 0, prevStump.NumLeaves, hashes, &proof, want, "update"); !okR {
+				return
+			}
 			heldBefore := len(hashes)
 			hashes, err = proof.Update(hashes, cloneHashes(rec.AddHashes), cloneU64(rec.Proof.Targets), append([]uint32(nil), op.Rem...), rec.UD)
 			site := "Proof.Update"
@@ -417,6 +457,10 @@ func lcCheck(c *core.Ctx, s lcScenario, judgeUndo bool) {
 			sn := snaps[len(snaps)-1]
 			snaps = snaps[:len(snaps)-1]
 			rec := sn.rec
+			var okR bool
+			if hashes, okR = lcReorder(c, s.Tag, oi, i+1, w.Stump.NumLeaves, hashes, &proof, want, "undo"); !okR {
+				return
+			}
 			heldBefore := cloneHashes(hashes)
 			var err error
 			hashes, err = proof.Undo(uint64(len(rec.AddHashes)), w.Stump.NumLeaves, cloneU64(rec.Proof.Targets), cloneHashes(rec.DelHashes),
